@@ -24,7 +24,10 @@ fn main() {
             // seconds-long replay tier: saved witnesses of earlier findings and mutants
             let mut n_regress = 0;
             let dir = format!("{}/replays/regress", driver::VERIF_DIR);
-            if let Ok(rd) = std::fs::read_dir(&dir) {
+            // VERIF_SKIP_REGRESS=1 (used when measuring what the campaign alone finds under a mutant)
+            let skip_regress = std::env::var("VERIF_SKIP_REGRESS").map_or(false, |v| v == "1");
+            if skip_regress {
+            } else if let Ok(rd) = std::fs::read_dir(&dir) {
                 let mut files: Vec<_> = rd.filter_map(|e| e.ok()).map(|e| e.path()).filter(|p| p.file_name().and_then(|n| n.to_str()).map_or(false, |n| n.starts_with(&format!("{}-", args[2])) && n.ends_with(".json"))).collect();
                 files.sort();
                 for f in files {
